@@ -4,9 +4,12 @@ package main
 
 import (
 	"bytes"
+	"encoding/hex"
 	"encoding/json"
 	"fmt"
+	"strings"
 
+	"github.com/bytom/bytom/encoding/blockchain"
 	"github.com/bytom/bytom/protocol/bc"
 	"github.com/bytom/bytom/protocol/bc/types"
 )
@@ -254,6 +257,19 @@ func oracleBlock(c *Ctx, blk *types.Block, flag int) (text []byte) {
 // c04Line runs one op line (corpus / replay): implementation line plus the round-trip oracle
 // on the decoded value (a value the node holds after receiving it).
 func c04Line(c *Ctx, line string) {
+	if f := strings.Fields(line); len(f) == 2 && (f[0] == "v31" || f[0] == "v63") {
+		var n uint64
+		if _, err := fmt.Sscan(f[1], &n); err == nil {
+			c04VarintOp(c, map[string]int{"v31": 31, "v63": 63}[f[0]], n)
+			return
+		}
+	} else if len(f) == 2 && (f[0] == "v31r" || f[0] == "v63r") {
+		if raw, err := hex.DecodeString(f[1]); err == nil {
+			res, _, _ := c04ReadVarint(map[string]int{"v31r": 31, "v63r": 63}[f[0]], raw)
+			c.Op(line, res)
+			return
+		}
+	}
 	kind, text, ok := parseOpLine(line)
 	if !ok {
 		c.Op(line, "bad-op")
@@ -320,6 +336,170 @@ func c04BigBlocks(c *Ctx, g *codecGen) {
 	}
 }
 
+// c04Varints: a direct WriteVarint31 / ReadVarint31 and WriteVarint63 / ReadVarint63 sweep:
+//   op line `v31 <n>` / `v63 <n>`: the value is written, a trailing byte aa appended and read back:
+//   impl line `<value> <unread bytes>` | `err <class>`; the model does the same with putUvarint / readVarint31.
+//   `v31r <hex>` / `v63r <hex>`: arbitrary bytes (non-minimal, over-long, truncated varints) are read.
+// Direct oracle: read(write(n)) == n with exactly the trailing byte unread.
+func c04VarintOp(c *Ctx, bits int, n uint64) {
+	var buf bytes.Buffer
+	var err error
+	if bits == 31 {
+		_, err = blockchain.WriteVarint31(&buf, n)
+	} else {
+		_, err = blockchain.WriteVarint63(&buf, n)
+	}
+	line := fmt.Sprintf("v%d %d", bits, n)
+	if err != nil {
+		c.Op(line, "err "+errClass(err))
+		return
+	}
+	raw := append(buf.Bytes(), 0xaa)
+	res, val, rest := c04ReadVarint(bits, raw)
+	c.Op(line, res)
+	c.Count(fmt.Sprintf("varint:v%d", bits))
+	if res[:3] == "err" || val != n || rest != 1 {
+		failLimited(c, fmt.Sprintf("varint%d-roundtrip-differs:n=%d", bits, n), fmt.Sprintf("Write/ReadVarint%d(%d): bytes %x read back as %s", bits, n, raw, res))
+	}
+}
+
+func c04ReadVarint(bits int, raw []byte) (line string, val uint64, rest int) {
+	defer func() {
+		if r := recover(); r != nil {
+			line = "panic"
+		}
+	}()
+	r := blockchain.NewReader(raw)
+	var err error
+	if bits == 31 {
+		var v uint32
+		v, err = blockchain.ReadVarint31(r)
+		val = uint64(v)
+	} else {
+		val, err = blockchain.ReadVarint63(r)
+	}
+	if err != nil {
+		return "err " + errClass(err), 0, 0
+	}
+	return fmt.Sprintf("%d %d", val, r.Len()), val, r.Len()
+}
+
+func c04Varints(c *Ctx) {
+	seen := map[uint64]bool{}
+	add := func(bits int, n uint64) {
+		if n > 1<<63-1+1 || (bits == 31 && n > 1<<31) || seen[n<<1|uint64(bits&1)] {
+			return
+		}
+		seen[n<<1|uint64(bits&1)] = true
+		c04VarintOp(c, bits, n)
+	}
+	for _, bits := range []int{31, 63} {
+		top := uint(31)
+		if bits == 63 {
+			top = 63
+		}
+		for k := uint(0); k <= top; k++ {
+			p := uint64(1) << k
+			for _, d := range []uint64{0, 1} {
+				add(bits, p+d)
+				add(bits, p-d)
+			}
+			// both halves of every 2^14 block above 2^15 (bit 14 set / clear), and 7-bit group borders
+			add(bits, p+16384)
+			add(bits, p+16383)
+			add(bits, p+p/2)
+			add(bits, p+p/4+1)
+		}
+		for m := uint64(1); m <= 12; m++ {
+			for _, d := range []uint64{0, 1, 16383} {
+				add(bits, m*16384+d)
+				add(bits, m*16384-1+d)
+			}
+		}
+		for i := 0; i < 200; i++ {
+			add(bits, c.Rng.Uint64()>>uint(64-1-c.Rng.Intn(int(top))))
+		}
+	}
+	// raw varint bytes
+	for i := 0; i < 300; i++ {
+		n := 1 + c.Rng.Intn(11)
+		raw := make([]byte, n)
+		c.Rng.Read(raw)
+		for j := 0; j < n-1; j++ {
+			if c.Rng.Intn(3) != 0 {
+				raw[j] |= 0x80
+			}
+		}
+		if c.Rng.Intn(2) == 0 {
+			raw[n-1] &= 0x7f
+		}
+		for _, bits := range []int{31, 63} {
+			res, _, _ := c04ReadVarint(bits, raw)
+			c.Op(fmt.Sprintf("v%dr %s", bits, hx(raw)), res)
+			c.Count("varint:raw")
+		}
+	}
+}
+
+// c04BigStrings: one byte-string field at a time gets a size >= 32768 (both halves of the 2^14
+// blocks: bit 14 clear and set), the value goes through the text round trip and the model differential.
+var c04BigSizes = []int{32767, 32768, 40000, 49151, 49152, 65535, 65536, 81919, 81920}
+
+func c04BigStrings(c *Ctx, g *codecGen) {
+	type field struct {
+		name string
+		set  func(t *types.TxData, v []byte)
+	}
+	fields := []field{
+		{"spend.controlprogram", func(t *types.TxData, v []byte) { t.Inputs[0].TypedInput.(*types.SpendInput).ControlProgram = v }},
+		{"spend.argument", func(t *types.TxData, v []byte) { t.Inputs[0].SetArguments([][]byte{{1}, v}) }},
+		{"spend.statedata", func(t *types.TxData, v []byte) { t.Inputs[0].TypedInput.(*types.SpendInput).StateData = [][]byte{v} }},
+		{"spend.commitmentsuffix", func(t *types.TxData, v []byte) { t.Inputs[0].TypedInput.(*types.SpendInput).SpendCommitmentSuffix = v }},
+		{"input.witnesssuffix", func(t *types.TxData, v []byte) { t.Inputs[0].WitnessSuffix = v }},
+		{"issuance.assetdefinition", func(t *types.TxData, v []byte) {
+			t.Inputs[1] = types.NewIssuanceInput([]byte{1}, 7, []byte{0x53}, nil, v)
+		}},
+		{"coinbase.arbitrary", func(t *types.TxData, v []byte) { t.Inputs[2].TypedInput.(*types.CoinbaseInput).Arbitrary = v }},
+		{"output.controlprogram", func(t *types.TxData, v []byte) { t.Outputs[0].ControlProgram = v }},
+		{"output.commitmentsuffix", func(t *types.TxData, v []byte) { t.Outputs[0].CommitmentSuffix = v }},
+	}
+	mk := func() *types.TxData {
+		return &types.TxData{Version: 1, Inputs: []*types.TxInput{
+			types.NewSpendInput(nil, g.hash(), bc.AssetID(g.hash()), 5, 1, []byte{0x51}, nil),
+			types.NewIssuanceInput([]byte{1}, 7, []byte{0x53}, nil, []byte{2}),
+			types.NewCoinbaseInput([]byte{3})},
+			Outputs: []*types.TxOutput{types.NewOriginalTxOutput(bc.AssetID(g.hash()), 3, []byte{0x54}, nil)}}
+	}
+	sizes := c04BigSizes
+	if c.Tier == "thorough" {
+		sizes = append(append([]int{}, sizes...), 1<<17, 1<<17+5, 1<<21, 1<<21+16384)
+	}
+	for fi, f := range fields {
+		for si, L := range sizes {
+			if c.Tier != "thorough" && L != 32768 && L != 65536 && !(L == 49152 && fi%2 == 0) && (fi+si)%5 != 0 {
+				continue // quick tier: every field at 32768 and 65536, a sample of the other combinations
+			}
+			v := g.bytesN(L)
+			v[0] = 0x51
+			t := mk()
+			f.set(t, v)
+			text, err := t.MarshalText()
+			if err != nil {
+				continue
+			}
+			res := runCodec("tx", text)
+			c.Op(opLine("tx", text), res.line)
+			c.Count("bigstr:" + f.name)
+			c.Count("outcome:" + res.outcome)
+			before := failTotal
+			oracleTx(c, t)
+			if failTotal > before || res.outcome != "ok" {
+				failLimited(c, fmt.Sprintf("tx-roundtrip-fails-with-long-string:%s:len=%d", f.name, L), fmt.Sprintf("a transaction whose %s has %d bytes: %s", f.name, L, short(res.line)))
+			}
+		}
+	}
+}
+
 func runC04(c *Ctx) {
 	c.Rule = "distinct = distinct encodings of generated well-formed values (tx with all 4 input kinds / 2 output kinds / suffixes / nil-vs-empty, headers with 0-5 suplinks, blocks in 3 serialisations)"
 	if c.Replay != "" {
@@ -332,6 +512,8 @@ func runC04(c *Ctx) {
 		c04Line(c, l)
 	}
 	g := &codecGen{r: c.Rng, count: c.Count}
+	c04Varints(c)
+	c04BigStrings(c, g)
 	c04BigBlocks(c, g)
 	for i := 0; i < c.N; i++ {
 		var kind string
